@@ -752,3 +752,74 @@ def c10_programs(backend):
     en1 = {"Top.Kind": ("Top", ["A", "B"])}
     prog("Select(EventDataset('ds'), lambda e: e.PRIM('A').Select(lambda j: j.weight(Top.Kind.B)))", [], enums=en1, tags=("enum", "1level"))
     return out
+
+
+# ------------------------------------------------------------------ C06: collections
+def c06_programs(backend):
+    from .model import BUILTIN, CollSpec
+    out = []
+    names = [n for n, s_ in BUILTIN[backend].items() if not s_.singleton]
+    singles = [n for n, s_ in BUILTIN[backend].items() if s_.singleton]
+
+    def add(q, tags=(), dm=None):
+        dm = dm or datamodel_for(q, backend)
+        out.append(Program(with_metadata(q, dm), backend, dm, src=q, tags=tuple(tags)))
+    for n in names:
+        add(f"Select(EventDataset('ds'), lambda e: e.{n}('bank1').Count())")
+        add(f"Select(EventDataset('ds'), lambda e: e.{n}('bank1').Select(lambda x: x.pt()))")
+        add(f"Select(SelectMany(EventDataset('ds'), lambda e: e.{n}('bank1')), lambda x: x.pt())")
+        add(f"Select(EventDataset('ds'), lambda e: (e.{n}('b1').Count(), e.{n}('b1').Select(lambda x: x.pt())))", tags=("same-bank-twice",))
+        add(f"Select(EventDataset('ds'), lambda e: (e.{n}('b1').Count(), e.{n}('b2').Count()))", tags=("two-banks",))
+        add(f"Select(EventDataset('ds'), lambda e: e.{n}('b1').Select(lambda x: e.{n}('b2').Where(lambda y: y.pt() > x.pt()).Count()))", tags=("two-banks-nested",))
+        add(f"Select(EventDataset('ds'), lambda e: e.{n}('b1').Count() > 0 and e.{n}('b2').Count() > 0)", tags=("lazy",))
+        add(f"Select(EventDataset('ds'), lambda e: e.{n}())", tags=("must_raise",))
+        add(f"Select(EventDataset('ds'), lambda e: e.{n}('a', 'b').Count())", tags=("must_raise",))
+        add(f"Select(EventDataset('ds'), lambda e: e.{n}(1).Count())", tags=("must_raise",))
+    for a, b in zip(names, names[1:] + names[:1]):
+        if a != b:
+            add(f"Select(EventDataset('ds'), lambda e: (e.{a}('x').Count(), e.{b}('x').Count()))", tags=("two-collections-same-bank",))
+            add(f"Select(EventDataset('ds'), lambda e: e.{a}('x').Select(lambda p: e.{b}('y').Where(lambda q: q.pt() > p.pt()).Count()))", tags=("two-collections",))
+    for n in singles:
+        add(f"Select(EventDataset('ds'), lambda e: e.{n}('EI').runNumber())")
+        add(f"Select(EventDataset('ds'), lambda e: (e.{n}('EI').runNumber(), e.{names[0]}('A').Count()))")
+        add(f"Select(EventDataset('ds'), lambda e: e.{names[0]}('A').Select(lambda j: j.pt() * e.{n}('EI').runNumber()))")
+        add(f"Select(EventDataset('ds'), lambda e: e.{n}('EI').Select(lambda x: x.runNumber()))", tags=("must_raise",))
+        add(f"Select(EventDataset('ds'), lambda e: e.{n}('EI').Count())", tags=("must_raise",))
+    # metadata-declared collections
+    mdt = {"atlas": "add_atlas_event_collection_info", "cms_aod": "add_cms_aod_event_collection_info", "cms_miniaod": "add_cms_miniaod_event_collection_info"}[backend]
+
+    def declared(name, ctype, etype, elem_p, headers, libs=(), singleton=False, extra=None):
+        md = {"metadata_type": mdt, "name": name, "include_files": list(headers), "container_type": ctype, "contains_collection": not singleton}
+        if not singleton:
+            md["element_type"] = etype
+        if backend == "atlas":
+            md["link_libraries"] = list(libs)
+        if extra:
+            md.update(extra)
+        return CollSpec(name, ctype, None if singleton else etype, elem_p, singleton, tuple(headers), tuple(libs), declared_md=md)
+    ep = 1 if backend == "atlas" else 0
+    for name, tags in (("ForkJets", ("declared-new",)), (names[0], ("declared-replaces-builtin",))):
+        dm = DataModel(backend)
+        dm.declare_collection(declared(name, "my::ThingCollection", "my::Thing", ep, ["my/Thing.h"], ["myThingLib"]))
+        add(f"Select(EventDataset('ds'), lambda e: e.{name}('bk').Select(lambda t: t.pt()))", tags=tags, dm=dm)
+        dm = DataModel(backend)
+        dm.declare_collection(declared(name, "my::ThingCollection", "my::Thing", ep, ["my/Thing.h"], ["myThingLib"]))
+        add(f"Select(EventDataset('ds'), lambda e: (e.{name}('bk').Count(), e.{names[-1]}('other').Count()))", tags=tags, dm=dm)
+    if backend == "atlas":
+        dm = DataModel(backend)
+        dm.declare_collection(declared("MyInfo", "my::Info", None, 0, ["my/Info.h"], ["myInfoLib"], singleton=True))
+        add("Select(EventDataset('ds'), lambda e: e.MyInfo('info').value())", tags=("declared-singleton",), dm=dm)
+    else:
+        for ptr in (False, True):
+            dm = DataModel(backend)
+            dm.declare_collection(declared("PtrThings", "my::PtrThingCollection", "my::Thing", 1 if ptr else 0, ["my/Thing.h"], extra={"element_pointer": ptr}))
+            add("Select(EventDataset('ds'), lambda e: e.PtrThings('bk').Select(lambda t: t.pt()))", tags=("element_pointer", str(ptr)), dm=dm)
+            dm = DataModel(backend)
+            dm.declare_collection(declared("PtrThings", "my::PtrThingCollection", "my::Thing", 1 if ptr else 0, ["my/Thing.h"], extra={"element_pointer": ptr}))
+            add("Select(SelectMany(EventDataset('ds'), lambda e: e.PtrThings('bk')).Where(lambda t: t.pt() > 1.5), lambda t: t.eta())", tags=("element_pointer", str(ptr)), dm=dm)
+    # a declaration for another backend is refused
+    other = {"atlas": "add_cms_aod_event_collection_info", "cms_aod": "add_cms_miniaod_event_collection_info", "cms_miniaod": "add_atlas_event_collection_info"}[backend]
+    dm = DataModel(backend)
+    dm.extra_md.append({"metadata_type": other, "name": "Alien", "include_files": ["x.h"], "container_type": "a::B", "element_type": "a::C", "contains_collection": True})
+    add(f"Select(EventDataset('ds'), lambda e: e.{names[0]}('A').Count())", tags=("must_raise", "other-backend"), dm=dm)
+    return out
